@@ -61,8 +61,8 @@ FLOORS = {
               "counters": {"runtime_line_checks": 1500, "syntax_line_checks": 800,
                            "fs_filename_checks": 300, "async_cases": 400,
                            "site_after_stripped_newlines": 300, "crossed_template": 500,
-                           "multiline_before_site": 2500, "const_site_checks": 500,
-                           "finalize_env_cases": 400, "load_checks": 3000}},
+                           "multiline_before_site": 2500, "const_site_checks": 250,
+                           "finalize_env_cases": 250, "load_checks": 2000}},
     # thorough: 960k evaluations / 913k distinct in 281 s (count-bounded) at load
     # ~1x, 417k / 403k (time-boxed) at load ~4x; floors = 1/4 of the latter
     "thorough": {"evaluations": 100000, "distinct": 95000,
@@ -493,6 +493,9 @@ def gen_case(r, part):
         if k in CROSS_WRAPPERS:
             block_ok = True
         if k == "block" and not block_ok:
+            k = "if"
+        if k == "autoescape" and kind.startswith("finalize-const"):
+            # what finalize receives for an escaped constant is not this property's subject
             k = "if"
         if k in ("macro", "callblock", "setblock", "filterblock"):
             block_ok = False
